@@ -21,7 +21,7 @@ from lib.hx import harness, pick, pickb, done, tier, PART, note, known, sample
 PROPERTY = "C10"
 LEVEL = "exploration"
 ASSUMPTIONS = [
-    "narrow claim: one hostile string from a menu of 16, planted in one of 14 places of a fixed two-module project, 5 docformats; nothing is claimed for other inputs",
+    "narrow claim: one hostile string from a menu of 25, planted in one of 15 places of a fixed two-module project, 5 docformats; nothing is claimed for other inputs",
     "reST raw / include directives are excluded by the statement and not used",
     "well-formedness is judged by expat (xml.etree) after removing characters that are illegal in XML 1.0",
 ]
@@ -34,10 +34,18 @@ HOSTILE = [
     "<script>alert(1)</script>", "\"><img src=x onerror=alert(1)>", "'><svg onload=alert(1)>", "&amp;&lt;b&gt;&#60;i&#62;", "]]><b>x</b>", "<!-- c --><b>",
     "--></p><p>", "<![CDATA[<x>]]>", "</code></div><h1>x</h1>", "&nosuchentity;", "<a href=javascript:alert(1)>x</a>", "\x1b[31m<b>", "a\x0cb<i>", "<b\tonclick=x>",
     "x\" onmouseover=\"alert(1)", "x' onfocus='alert(1)",
+    # a reST directive smuggled through a string that pydoctor itself pastes into reST (line separators of str.splitlines); not planted in
+    # docstrings, where it would be the author's own explicit raw directive, which the statement excludes
+    "x\n\n.. raw:: html\n\n   <script>alert(1)</script>", "x\r\r.. raw:: html\r\r   <script>alert(1)</script>",
+    "x\u2028\u2028.. raw:: html\u2028\u2028   <script>alert(1)</script>", "x\x85\x85.. raw:: html\x85\x85   <script>alert(1)</script>", "x\x1c\x1c.. raw:: html\x1c\x1c   <script>alert(1)</script>",
+    # reST inline markup behind something that could end an inline literal early, or keep it from starting
+    "x`` `click <javascript:alert(1)>`_ ``y", " `click <javascript:alert(1)>`_ ", "a``` :sup:`b` ```c", "x\\",
 ]
+DIRECTIVE_STRINGS = range(16, 25)
+DOC_PLACES = {"moddoc", "funcdoc", "classdoc", "attrdoc", "field_param", "field_return", "field_raises", "attr_href", "attr_alt"}
 NH = len(HOSTILE)
 FORMATS = ["epytext", "restructuredtext", "google", "numpy", "plaintext"]
-PLACES = ["moddoc", "funcdoc", "classdoc", "attrdoc", "field_param", "field_return", "field_raises", "const", "default", "annotation", "decorator", "base", "attr_href", "attr_alt"]
+PLACES = ["moddoc", "funcdoc", "classdoc", "attrdoc", "field_param", "field_return", "field_raises", "const", "default", "annotation", "decorator", "base", "attr_href", "attr_alt", "deprecated"]
 NP = len(PLACES)
 _ILLEGAL = re.compile("[\x00-\x08\x0b\x0c\x0e-\x1f￾￿]")
 
@@ -79,6 +87,7 @@ def gen(fmt, place, s):
     deco = "@deco(%s)\n" % lit(s) if place == "decorator" else "@deco(1)\n"
     base = "Base[%s]" % lit(s) if place == "base" else "Base"
     const = lit(s) if place == "const" else "'plain'"
+    repl = lit(s) if place == "deprecated" else "'other thing'"
     src = (
         "%s\n" % doc("moddoc", "Module m.", "")
         + "def deco(x):\n    return lambda f: f\n"
@@ -86,6 +95,8 @@ def gen(fmt, place, s):
         + "CONST = %s\n" % const
         + deco + "def f(a: %s = %s) -> int:\n    %s\n    return 1\n" % (annotation, default, lit(fdoc))
         + "class K(%s):\n    %s\n    attr = 1\n    %s\n" % (base, doc("classdoc", "Class K.", "    "), doc("attrdoc", "Attribute attr.", "    "))
+        # the twisted deprecation extension pastes the replacement string into a reST '.. deprecated::' directive
+        + "from twisted.python.deprecate import deprecated\nfrom incremental import Version\n@deprecated(Version('Twisted', 16, 0, 0), replacement=%s)\ndef old():\n    'Old.'\n" % repl
     )
     return {"m": (src, False)}
 
@@ -94,7 +105,10 @@ def skeleton(root):
     out = []
     for e in root.iter():
         tag = e.tag.split("}")[-1] if isinstance(e.tag, str) else "#"
-        out.append((tag, tuple(sorted(k.split("}")[-1] for k in e.attrib)), e.attrib.get("class")))
+        item = (tag, tuple(sorted(k.split("}")[-1] for k in e.attrib)), e.attrib.get("class"))
+        if item == ("span", ("class",), "pre"):
+            continue        # docutils wraps words of a literal that contain two adjacent punctuation characters (no-wrap protection): depends on punctuation, carries nothing from the text
+        out.append(item)
     return out
 
 
@@ -124,6 +138,8 @@ _BENIGN_CACHE = {}
 
 def check_markup(fmt, place, hi):
     s = HOSTILE[hi]
+    if hi in DIRECTIVE_STRINGS and place in DOC_PLACES:
+        return True
     # the harmless twin: the same string with the HTML-significant characters replaced, so that everything a DOCFORMAT
     # gives meaning to (colons, dashes, brackets, whitespace) is the same in both renderings
     benign = re.sub("[<>&\"']", "x", s)
@@ -138,7 +154,7 @@ def check_markup(fmt, place, hi):
         except (SyntaxError, IndexError):
             pass
     mentioned = set(re.findall(r"<\s*([A-Za-z][A-Za-z0-9]*)", s)) | set(re.findall(r"([A-Za-z]+)\s*=", s))
-    key = (fmt, place, len(s))
+    key = (fmt, place, benign)
     if key not in _BENIGN_CACHE:
         _BENIGN_CACHE[key] = {f: (skeleton(r) if not isinstance(r, str) else r) for f, r in render_parse(fmt, place, benign).items()}
     base = _BENIGN_CACHE[key]
@@ -176,6 +192,9 @@ def check_markup(fmt, place, hi):
             # a constant may be displayed as the equivalent literal with its quote escaped (C15 decides that the literal denotes the same string)
             if any("".join(v.split()) in squeezed for v in (plain, plain.replace("'", "\\'"), plain.replace('"', '\\"'))):
                 shown = True
+    if place == "deprecated" and not shown:
+        note(why="the replacement string of @deprecated is not present as text on any page (it was interpreted as markup)", **ctx)
+        return False
     if place in ("const", "default", "funcdoc", "moddoc", "classdoc", "attrdoc") and not shown and fmt == "plaintext" and not re.search(r"[\x00-\x1f]", s):
         note(why="the string is not present as text on any page", **ctx)
         return False
@@ -190,7 +209,7 @@ UNBLOCK = ["open", "os.mkdir", "os.symlink", "os.remove", "os.rmdir", "shutil.rm
     parts=lambda: [[p, f] for p in range(NP) for f in range(5)], timeout=(300, 1800), cls="E", tracing="concrete-after-choice", twin="first", unblock=UNBLOCK,
     code=["pydoctor.stanutils.flatten/html2stan (_RE_CONTROL)", "pydoctor.node2stan.HTMLTranslator", "pydoctor.templatewriter.writer.flattenToFile", "pydoctor.astbuilder._ValueFormatter", "pydoctor.epydoc.markup._pyval_repr",
           "pydoctor.templatewriter.pages.format_signature/format_decorators/format_class_signature", "pydoctor.epydoc2stan.FieldHandler", "twisted.web.template flattening (third party, exercised not modelled)"],
-    bounds={"quick": "16 hostile strings (element, attribute and event-handler injection with either quote, entity look-alikes, CDATA/comment delimiters, control characters) x 14 places (incl. hyperlink target and image alt text, which the translators write into attribute values) x 5 docformats (1 120 renders + harmless twins of equal length)", "thorough": "same"},
+    bounds={"quick": "25 hostile strings (element, attribute and event-handler injection with either quote, entity look-alikes, CDATA/comment delimiters, control characters, a reST raw directive smuggled behind each of 5 line separators, reST inline markup behind literal-ending backticks / leading white space) x 15 places (incl. hyperlink target and image alt text, which the translators write into attribute values, and the replacement string of twisted's @deprecated, which pydoctor pastes into reST) x 5 docformats (1 500 renders + harmless twins of equal length)", "thorough": "same"},
     outside="strings outside the menu; several hostile strings at once; reST raw/include directives; names (identifiers cannot hold markup)",
 )
 def h_markup(hi: int) -> bool:
